@@ -1,0 +1,79 @@
+//go:build verif
+
+// Machine-checked specifications for package certs (comment-only file; read
+// by /verif/bin/hopvc).
+
+package certs
+
+// Store.certs never holds a nil certificate: AddCertificate is its only writer (checked
+// structurally by the C04 check) and dereferences c before storing it.
+//@ mapinv nonnil map[certs.SHA3Fingerprint]*certs.Certificate : only AddCertificate writes Store.certs, after dereferencing its argument
+
+// ---- vocabulary (C04) ---------------------------------------------------
+// sigOK abstracts Ed25519 verification (keys.VerifySignature): public key,
+// to-be-signed bytes, signature.
+//@ spec sigOK(pub Bytes, tbs Bytes, sig Bytes) bool
+//
+// valid(c, now): now is inside [IssuedAt, ExpiresAt) — the upper bound is exclusive.
+//@ macro valid(c, now) = !before(now, c.IssuedAt) && before(now, c.ExpiresAt)
+//
+// tbs(c): the raw certificate bytes without the trailing 64-byte signature.
+//@ macro rawLen(c) = len(c.raw.buf) - c.raw.off
+//@ macro tbs(c) = c.raw.buf[c.raw.off : len(c.raw.buf) - 64]
+//
+// issued(child, parent): parent's key signed child, types and fingerprint link agree.
+//@ macro issued(child, parent) =
+//@     ((child.Type == Leaf && parent.Type == Intermediate) ||
+//@      (child.Type == Intermediate && parent.Type == Root) ||
+//@      (child.Type == Root && parent.Type == Root && child.Parent == zero)) &&
+//@     (child.Type == Root || child.Parent == parent.Fingerprint) &&
+//@     rawLen(child) >= 64 &&
+//@     sigOK(bytes(parent.PublicKey), bytes(tbs(child)), bytes(child.Signature))
+//
+// nameIn(c, n): some identity block of c has the same type AND the same label bytes.
+//@ macro nameIn(c, n) = exists k int :: 0 <= k && k < len(c.IDChunk.Blocks) &&
+//@     bytesEq(c.IDChunk.Blocks[k].Label, n.Label) && c.IDChunk.Blocks[k].Type == n.Type
+
+//@ func keys.VerifySignature(pub, tbs, sig) (ok)
+//@   assume Ed25519 verification is abstracted by the uninterpreted predicate sigOK (unforgeability is a cryptographic assumption outside the proof)
+//@   pure
+//@   ensures ok <==> sigOK(bytes(*pub), bytes(tbs), bytes(*sig))
+
+//@ func VerifyParent(child *Certificate, parent *Certificate) (err error)
+//@   property C04
+//@   pure
+//@   ensures err == nil <==> issued(child, parent)
+
+//@ func (c *Certificate) MatchesName(name Name) (result bool)
+//@   property C04
+//@   pure
+//@   ensures result <==> (c.Type == Leaf && nameIn(c, name))
+//@   loop 1
+//@     invariant forall k int :: 0 <= k && k <= rangeindex ==>
+//@         !(bytesEq(c.IDChunk.Blocks[k].Label, name.Label) && c.IDChunk.Blocks[k].Type == name.Type)
+
+//@ func (name Name) IsZero() (result bool)
+//@   property C04
+//@   pure
+//@   ensures result <==> (isnil(name.Label) && name.Type == 0)
+
+// VerifyLeaf accepts exactly the valid chains (statement of C04), for every
+// explicit verification time.  inter is the presented intermediate when its
+// fingerprint is the one the leaf names, otherwise the stored certificate under
+// that fingerprint; root is the stored certificate under inter.Parent.
+//@ func (s Store) VerifyLeaf(leaf *Certificate, opts VerifyOptions) (err error)
+//@   property C04
+//@   pure
+//@   let now = opts.CurrentTime
+//@   let pres = opts.PresentedIntermediate
+//@   requires !zerotime(opts.CurrentTime)
+//@   ensures err == nil <==> (
+//@       leaf.Type == Leaf &&
+//@       ((isnil(opts.Name.Label) && opts.Name.Type == 0) || nameIn(leaf, opts.Name)) &&
+//@       valid(leaf, now) &&
+//@       ((pres != nil && leaf.Parent == pres.Fingerprint) || has(s.certs, leaf.Parent)) &&
+//@       (let inter = ((pres != nil && leaf.Parent == pres.Fingerprint) ? pres : s.certs[leaf.Parent]) in
+//@           inter.Type == Intermediate && valid(inter, now) && inter.Fingerprint == leaf.Parent && issued(leaf, inter) &&
+//@           has(s.certs, inter.Parent) &&
+//@           (let root = s.certs[inter.Parent] in
+//@               root.Type == Root && valid(root, now) && root.Fingerprint == inter.Parent && issued(inter, root))))
